@@ -16,6 +16,7 @@ type Series struct {
 	S       []Sample
 	FailAt  int // iterator fails when advancing onto this index (-1: never)
 	FailErr error
+	Panic   bool
 	Iters   []*ListIter
 }
 
@@ -27,7 +28,7 @@ func NewSeries(l labels.Labels, s []Sample) *Series {
 func (s *Series) Labels() labels.Labels { return s.L }
 func (s *Series) Iterator() chunkenc.Iterator {
 	it := NewListIter(s.S)
-	it.FailAt, it.FailErr = s.FailAt, s.FailErr
+	it.FailAt, it.FailErr, it.Panic = s.FailAt, s.FailErr, s.Panic
 	s.Iters = append(s.Iters, it)
 	return it
 }
